@@ -12,6 +12,7 @@ From Slim Require Import Varint Proto BitmapRank BitmapRankProofs BitmapRank2 Bi
      Arrays ArraysProofs ArrWire ArrWireProofs ListFacts LegacyBytes.
 Import ListNotations.
 Local Open Scope N_scope.
+Ltac Zify.zify_post_hook ::= Z.div_mod_to_equations.
 
 (* ====================================================================== *)
 (* A. the ids of the nodes with a property                                  *)
@@ -340,7 +341,6 @@ Proof.
   pose proof (bm16_of_lt _ Hb) as Hlt. change (256 ^ N.of_nat 4) with 4294967296. change (2 ^ 16) with 65536.
   set (x := bm16_of (on_bm n)) in *. set (y := fc mod 65536).
   assert (y < 65536) by (subst y; apply N.mod_lt; lia).
-  Ltac Zify.zify_post_hook ::= Z.div_mod_to_equations.
   lia.
 Qed.
 
